@@ -299,7 +299,7 @@ def main():
                     for ln in lens:
                         if a.tier == 'quick' and dt not in ('uint8', 'uint32') and (rank, ln) not in ((2, 4), (3, 5)): continue
                         units.append(('grp', dt, rank, axis, k, ln))
-    for dt, rank, axis, k in (('uint8', 1, 0, 2), ('uint8', 2, 0, 2), ('uint8', 2, 1, 2), ('uint16', 3, 1, 2)) + ((('uint8', 1, 0, 4), ('uint8', 2, 1, 3), ('uint32', 2, 1, 2), ('uint64', 3, 2, 2), ('uint8', 3, 0, 5), ('uint16', 2, 0, 3)) if a.tier != 'quick' else ()):      # quick: k = 2 (z3 decides at once); larger k needs cvc5 (tens of seconds each)
+    for dt, rank, axis, k in (('uint8', 1, 0, 2), ('uint8', 2, 0, 2), ('uint8', 2, 1, 2), ('uint8', 3, 1, 2), ('uint8', 3, 2, 2)) + ((('uint16', 3, 1, 2), ('uint8', 1, 0, 4), ('uint8', 2, 1, 3), ('uint32', 2, 1, 2), ('uint64', 3, 2, 2), ('uint8', 3, 0, 5), ('uint16', 2, 0, 3)) if a.tier != 'quick' else ()):      # quick: uint8, k = 2 (z3 decides at once); wider words / larger k need cvc5 (tens of seconds each)
         units.append(('grpinv', dt, rank, axis, k))
     for dt in ('uint8', 'int8', 'uint16', 'int16', 'uint32', 'int32', 'uint64', 'int64'):
         for b in range(9): units.append(('mono', dt, b))
